@@ -232,6 +232,9 @@ func TestVerif_C09_Parallel(t *testing.T) {
 						// the sender's own message store opens every entry of the log, its own included
 						if o, e2 := vOpen(w.S, w.groups[gi], env, vCID(env)); e2 != nil || !bytes.Equal(o.Payload, p) {
 							err = fmt.Errorf("own envelope does not open on the sender: %v", e2)
+						} else {
+							// (the message store then moves the push reference window of that device, its own included)
+							_ = w.S.s.UpdateOutOfStoreGroupReferences(vctx, o.Device, o.Counter, w.groups[gi])
 						}
 					}
 					mu.Lock()
@@ -304,10 +307,12 @@ func c09Controlled(t *testing.T, sc c09Scenario, choices []int) vsched.Outcome {
 						_, _, _, _, _ = w.S.s.OpenOutOfStoreMessage(vctx, c14Push(w.S, w.groups[0], env))
 					}
 					if sc.ReadBack {
-						if o, err := vOpen(w.S, w.groups[0], env, vCID(env)); err != nil || !bytes.Equal(o.Payload, p) {
+						o, err := vOpen(w.S, w.groups[0], env, vCID(env))
+						if err != nil || !bytes.Equal(o.Payload, p) {
 							errs = append(errs, fmt.Sprintf("own envelope does not open on the sender: %v", err))
 							return
 						}
+						_ = w.S.s.UpdateOutOfStoreGroupReferences(vctx, o.Device, o.Counter, w.groups[0])
 					}
 				}
 			})
